@@ -128,6 +128,18 @@ class LoopSplit:
         self._pre, self._test, self._body, self._post_nb, self._post_b = (ns[k] for k in ("__pre__", "__test__", "__body__", "__post_nobreak__", "__post_break__"))
         # the segments tile the function: every top-level statement of the (flattened) body is in exactly one segment
         self.stmt_counts = dict(pre=len(pre), body=len(loop.body), orelse=len(loop.orelse), post=len(post))
+        # control-flow shape of the loop: the harness-supplied invariants and exit-state obligations are written for ONE shape (how the loop is
+        # left: test / break / else clause).  A harness compares this with the shape it was written for; on a mismatch the loop contract is
+        # "not applicable" (undecided), never a verdict — a counter-model of an exit obligation for a differently shaped loop means nothing.
+        def _breaks(stmts):
+            n = 0
+            for st_ in stmts:
+                for node in ast.walk(st_):
+                    if isinstance(node, ast.Break):
+                        n += 1
+                    # (nested loops would own their breaks; the functions under contract have none)
+            return n
+        self.shape = (bool(loop.orelse), _breaks(loop.body))
 
     def _env(self, d):
         return {n: d.get(n, UNDEF) for n in self.names}
